@@ -9,10 +9,13 @@ import re
 ROOT = os.path.dirname(os.path.dirname(os.path.abspath(__file__)))
 import overlay  # noqa: E402
 
+CASHU_FILES = ["replay/cashu/zz_verif_drivers_test.go"]
 MINT_FILES = ["replay/mint/zz_verif_helpers_test.go", "replay/mint/zz_verif_drivers_test.go"]
 
 # (fn regex, obligation regex, pkg, files, test name, args)
 DRIVERS = [
+    (r"cashu\.DecodeToken(V3|V4)?$", r"safety:slice", "cashu", CASHU_FILES, "TestVerifReplay_DecodeShortStrings", None),
+    (r"cashu\.Token(V3|V4)\)\.(Mint|Proofs|Amount|Serialize)$", r"safety:index", "cashu", CASHU_FILES, "TestVerifReplay_AccessorsOnDecodedTokens", None),
     (r"mint\.Mint\)\.Swap$", r"pre:storage\.MintDB\.GetBlindSignatures@nonempty", "mint", MINT_FILES, "TestVerifReplay_EmptyOutputsSwap", None),
     (r"mint\.Mint\)\.MintTokens$", r"pre:storage\.MintDB\.GetBlindSignatures@nonempty", "mint", MINT_FILES, "TestVerifReplay_EmptyOutputsMint", None),
     (r"mint\.Mint\)\.ProofsStateCheck$", r"pre:storage\.MintDB\.Get(Pending|Used)Proofs.*@nonempty|pre:storage\.MintDB\.GetProofsUsed@nonempty", "mint", MINT_FILES, "TestVerifReplay_EmptyYsStateCheck", None),
